@@ -195,14 +195,14 @@ class World(object):
     # ------------------------------------------------------------------ transport callbacks
     def _on_write(self, conn, data):
         if conn.lost:
-            self.ev(conn, "write", data=data, where="after_lost", frames=[])
-            return
-        if conn.closed == "abort":
-            self.ev(conn, "write", data=data, where="dropped", frames=[])
-            return
-        conn.wire.extend(data)
+            where = "after_lost"
+        elif conn.closed == "abort":
+            where = "dropped"
+        else:
+            where = "wire"
+            conn.wire.extend(data)
         frames = []
-        e = self.ev(conn, "write", data=data, where="wire", frames=frames)
+        e = self.ev(conn, "write", data=data, where=where, frames=frames)
         if conn.framing_broken:
             return
         buf = conn.residue + data
@@ -211,7 +211,7 @@ class World(object):
         except R.Malformed as m:
             conn.framing_broken = True
             frames.append(("MALFORMED", m.reason, buf))
-            conn.frames.append((e.i, "MALFORMED", m.reason, buf))
+            conn.frames.append((e.i, "MALFORMED", m.reason, buf, where))
             return
         ver = conn.version or R.V311
         for raw in raws:
@@ -219,11 +219,12 @@ class World(object):
                 kind, f = R.ref_decode_strict(raw, R.C2B, ver)
             except R.Malformed as m:
                 frames.append(("MALFORMED", m.reason, raw))
-                conn.frames.append((e.i, "MALFORMED", m.reason, raw))
+                conn.frames.append((e.i, "MALFORMED", m.reason, raw, where))
                 continue
             frames.append((kind, f, raw))
-            conn.frames.append((e.i, kind, f, raw))
-            self._broker_sees(conn, kind, f)
+            conn.frames.append((e.i, kind, f, raw, where))
+            if where == "wire":
+                self._broker_sees(conn, kind, f)
 
     def _broker_sees(self, conn, kind, f):
         i = f.get("id")
@@ -275,6 +276,11 @@ class World(object):
             out.append((c.getTime(), getattr(c.func, "__qualname__", "?")))
         out.sort()
         return out
+
+    def set_phase(self, conn, ph):
+        if conn.phase != ph:
+            self.ev(conn, "phase", old=conn.phase, new=ph)
+            conn.phase = ph
 
     def live(self, a):
         c = self.cur.get(a)
@@ -410,6 +416,11 @@ class World(object):
         if conn is None:
             self.skipped += 1
             return
+        if conn.phase == "refused" and not self.cfg.get("rude"):
+            # the broker closes after refusing [MQTT-3.2.2-5]; a second CONNECT on that transport is
+            # generated only where the property under test is about it (C14)
+            self.skipped += 1
+            return
         kw = connect_kwargs(self.cfg, conn, keepalive, clean, extra)
         self.connect_kw(conn, kw)
 
@@ -419,7 +430,7 @@ class World(object):
         req.valid = valid
         req.fresh = fresh
         if valid and fresh and req.ret == "deferred" and not req.fires:
-            conn.phase = "connecting"
+            self.set_phase(conn, "connecting")
             conn.version = kw["version"]["level"]
             conn.clean = bool(kw["cleanStart"])
             conn.keepalive = kw["keepalive"]
@@ -549,6 +560,13 @@ class World(object):
             self.skipped += 1
             return
         ver = conn.version or R.V311
+        if kind != "CONNACK" and conn.phase != "connected" and not self.cfg.get("rude"):
+            # a broker's first packet is CONNACK [MQTT-3.2.0-1]; after refusing it closes
+            self.skipped += 1
+            return
+        if kind == "CONNACK" and conn.phase not in ("connecting", "connected") and not self.cfg.get("rude"):
+            self.skipped += 1
+            return
         if kind == "CONNACK":
             data = R.ref_encode("CONNACK", dict(session_present=bool(x & 1), code=sel), ver)
             desc = ("CONNACK", sel, x & 1)
@@ -556,12 +574,12 @@ class World(object):
             self.deliver(conn, data, desc, cuts)
             if was == "connecting":
                 if sel == 0:
-                    conn.phase = "connected"
+                    self.set_phase(conn, "connected")
                     conn.t_connack = self.now()
                     if conn.clean:
                         self.in_q2[a].clear()
                 else:
-                    conn.phase = "refused"
+                    self.set_phase(conn, "refused")
             return
         if kind == "PINGRESP":
             if conn.b_ping:
@@ -692,11 +710,11 @@ class World(object):
         conn.lost_t = self.now()
         conn.lost_reason = exc
         conn.phase_at_loss = conn.phase
-        conn.phase = "lost"
         conn.tr.connected = False
         self.push(("lose", type(exc).__name__))
         try:
-            self.ev(conn, "lost", reason=type(exc).__name__, robj=exc)
+            self.ev(conn, "lost", reason=type(exc).__name__, robj=exc, phase=conn.phase)
+            conn.phase = "lost"
             try:
                 conn.proto.connectionLost(_failure.Failure(exc))
             except Exception as x:  # noqa: BLE001
